@@ -80,6 +80,8 @@ def _summary(run, proc):
 def random_case(rng, tier):
     if rng.random() < 0.45:
         program = programs.gen_process_program(rng, PROGRAM_CFG)
+        if rng.random() < 0.3:
+            program['reads_inputs'] = True  # every step looks at self.inputs (an empty mapping if there are none)
         if rng.random() < 0.2:
             program['codec'] = True  # the class stores inputs/outputs in a representation of its own
     else:
